@@ -349,6 +349,20 @@ class SymEval:
                 nm = name_of(f.get('p'))
                 if nm:
                     out[nm] = ('v', {'k': 'field', 'e': scrut, 'n': f['n']})
+        elif p0.get('k') == 'ptstruct' and p0['path'].get('name') == 'Some' and len(p0.get('pats', [])) == 1:
+            # `Some(x)` on `s.first()` / `s.get(i)` / `s.last()`: x is that element
+            nm = name_of(p0['pats'][0])
+            sc0 = strip(scrut)
+            if nm and isinstance(sc0, dict) and sc0.get('k') == 'mcall' and sc0.get('name') in ('first', 'get', 'last'):
+                recv = strip(sc0['recv'])
+                if sc0['name'] == 'first' and not sc0.get('args'):
+                    out[nm] = ('v', {'k': 'index', 'e': recv, 'i': {'k': 'lit', 't': 'int', 'v': 0}})
+                elif sc0['name'] == 'get' and len(sc0.get('args', [])) == 1:
+                    out[nm] = ('v', {'k': 'index', 'e': recv, 'i': sc0['args'][0]})
+                elif sc0['name'] == 'last' and not sc0.get('args'):
+                    out[nm] = ('v', {'k': 'index', 'e': recv, 'i': {
+                        'k': 'binary', 'op': 'Sub', 'a': {'k': 'mcall', 'name': 'len', 'recv': recv, 'args': []},
+                        'b': {'k': 'lit', 't': 'int', 'v': 1}}})
         return out
 
     def match(self, m, env, kbody, _scrut=None):
@@ -375,18 +389,54 @@ class SymEval:
             pat = a['pat']
             s_t = strip(scrut)
             if isinstance(s_t, dict) and s_t.get('k') == 'tup' and pat.get('k') == 'ptuple' and \
+                    len(pat.get('pats', [])) == len(s_t.get('es', [])) and 'guard' in a and \
+                    all(q.get('k') in ('wild', 'ptstruct', 'pexpr', 'pref') or (q.get('k') == 'bind' and 'sub' not in q) for q in pat['pats']):
+                # `match (s.first(), s.get(i)) { (None, _) => .., (Some(&x), _) if g => .., .. }`: component tests, then the guard
+                comp = []
+                env_g = dict(env)
+                for q, el in zip(pat['pats'], s_t['es']):
+                    if q.get('k') == 'wild':
+                        continue
+                    if q.get('k') == 'bind':
+                        env_g[q['name']] = ('v', el)
+                        continue
+                    comp.append((q, el))
+                    for nm_, vv_ in self.structural_binds(q, el).items():
+                        env_g[nm_] = vv_
+                rest_g = None
+
+                def nxt_g():
+                    nonlocal rest_g
+                    if rest_g is None:
+                        rest_g = arms(i + 1)
+                    return rest_g
+
+                def build_g(j):
+                    if j >= len(comp):
+                        return ('ite', self.cond(a['guard'], env_g), kbody(a['body'], env_g), nxt_g())
+                    q, el = comp[j]
+                    return ('ite', ('pat', q, el), build_g(j + 1), nxt_g())
+                return build_g(0)
+            if isinstance(s_t, dict) and s_t.get('k') == 'tup' and pat.get('k') == 'ptuple' and \
                     len(pat.get('pats', [])) == len(s_t.get('es', [])) and 'guard' not in a:
-                # `match (a, b) { (true, _) => .., (false, true) => .., .. }`: a test of the boolean components
+                # `match (a, b) { (true, _) => .., (false, true) => .., .. }`: a test of the components
                 tests = []
                 okp = True
+                env_t = None
                 for q, el in zip(pat['pats'], s_t['es']):
                     if q.get('k') == 'wild':
                         continue
                     lit = q.get('e') if q.get('k') == 'pexpr' else q
                     if isinstance(lit, dict) and lit.get('k') == 'lit' and lit.get('t') == 'bool':
                         tests.append((el, bool(lit['v'])))
+                    elif q.get('k') in ('ptstruct', 'pexpr', 'pref') and any(x.get('k') in ('ptstruct', 'pexpr') for x in pat['pats']):
+                        tests.append((('pat', q, el), True))
+                        env_t = env_t if env_t is not None else dict(env)
+                        for nm_, vv_ in self.structural_binds(q, el).items():
+                            env_t[nm_] = vv_
                     else:
                         okp = False
+                env_use = env_t if (okp and env_t is not None) else env
                 if okp:
                     rest = None
 
@@ -398,14 +448,14 @@ class SymEval:
 
                     def build(j):
                         if j >= len(tests):
-                            return kbody(a['body'], env)
+                            return kbody(a['body'], env_use)
                         el, want = tests[j]
-                        c = ('e', el)
+                        c = el if isinstance(el, tuple) and el and el[0] == 'pat' else ('e', el)
                         return ('ite', c, build(j + 1), nxt()) if want else ('ite', c, nxt(), build(j + 1))
                     if not tests:
-                        return kbody(a['body'], env)
+                        return kbody(a['body'], env_use)
                     if i == len(m['arms']) - 1:
-                        return kbody(a['body'], env)      # exhaustive: the last arm takes what is left
+                        return kbody(a['body'], env_use)      # exhaustive: the last arm takes what is left
                     return build(0)
             st, binds = self.static_pat(pat, scrut)
             if st is False:
